@@ -7,6 +7,17 @@ from core import *
 import seqengine as se
 
 
+def _drop_partial_last_line(path):
+    """a crashed process may leave an incomplete last record: cut it off so that the JSON reader sees whole lines only"""
+    try:
+        data = open(path, "rb").read()
+    except OSError:
+        return
+    if data and not data.endswith(b"\n"):
+        k = data.rfind(b"\n")
+        open(path, "wb").write(data[:k + 1] if k >= 0 else b"")
+
+
 def run_runner(exe, out, scenario, mode_args, timeout=900):
     env = dict(os.environ)
     env["ASAN_OPTIONS"] = "detect_leaks=0:abort_on_error=0:exitcode=99"
@@ -20,6 +31,8 @@ def run_runner(exe, out, scenario, mode_args, timeout=900):
             rc = -9
     err = open(errf).read()
     os.remove(errf)
+    if rc != 0:
+        _drop_partial_last_line(out)
     if rc != 0:
         with open(out, "a") as f:
             f.write('\n{"e":"crash","t":9,"a":%d,"b":0,"r":0}\n' % rc)
